@@ -1,7 +1,7 @@
 (* C15 - Attachments are separately identified, correctly nested documents.
    Statements only; proofs in Proofs/Attach.v.  Model: Model/XmlGen.v (attachment_name, item_to_xml). *)
 Require Import BB.Base.Str BB.Base.Xml BB.Base.Dict BB.Model.Types BB.Model.Eid BB.Model.XmlGen.
-Require Import BB.Proofs.Attach.
+Require Import BB.Gen.TablesXml BB.Model.EidSpec BB.Proofs.Attach BB.Proofs.EidNest.
 
 (* for every generator state: the component is <parent component>/<keyword>_<n>, with n one more
    than the number of earlier attachments under the same parent with the same keyword; nothing else
@@ -26,4 +26,25 @@ Example C15_example :
   let '(n2, g2) := attachment_name (Some [(of_string "name", of_string "schedule")]) g1 in
   let '(n3, _) := attachment_name (Some [(of_string "name", of_string "annexure")]) (mkG (g_counters g2) [n2]) in
   (n1, n2, n3) = (of_string "schedule_1", of_string "schedule_2", of_string "schedule_2/annexure_1").
+Proof. vm_compute. reflexivity. Qed.
+
+(* the eIds of an attachment's content live under its own att_<n> id - as do the ids below every identified
+   element, at every depth: in every tree the generator returns, from any prefix and any generator state, each id
+   below an identified element is that element's id followed by "__..." *)
+Theorem C15_ids_live_under_their_container : forall e q s e' s',
+  rewrite_eid e q s = Some (e', s') -> ids_nested e'.
+Proof. exact rewrite_ids_nested. Qed.
+Print Assumptions C15_ids_live_under_their_container.
+
+(* non-vacuity: an attachment with a heading and a nested document holding a paragraph and a nested attachment *)
+Definition ex15 : xml :=
+  El (of_string "attachments") []
+    [El (of_string "attachment") []
+       [El (of_string "heading") [] [Tx (of_string "First")];
+        El (of_string "doc") [] [El (of_string "mainBody") []
+           [El (of_string "p") [] [Tx (of_string "text")];
+            El (of_string "attachments") [] [El (of_string "attachment") [] [El (of_string "doc") [] [El (of_string "mainBody") [] [El (of_string "p") [] []]]]]]]]].
+Example C15_nesting_example :
+  option_map (fun r => ids_of (fst r)) (rewrite_all_eids ex15 []) =
+  Some [of_string "att_1"; of_string "att_1__p_1"; of_string "att_1__att_1"; of_string "att_1__att_1__p_1"].
 Proof. vm_compute. reflexivity. Qed.
